@@ -10,7 +10,7 @@ from .values import *
 from .intrinsics import Intrinsics, PKG
 from .engine import Forks, EngineError
 
-MAXLIT = 72
+MAXLIT = 80
 
 
 def _isdigit(b):
